@@ -298,8 +298,9 @@ inductive DDir where
   | accepted (pn : Nat)    -- load/pn/accepted
 deriving DecidableEq, Repr
 
-/-- `asIs`: the delete_old_all branch before /repo commit 867b445 (side files kept through
-    keep_traj_fnames are left behind, `rmdir` then fails); `repaired`: the current code. -/
+/-- `asIs`: the delete_old_all branch before /repo commits 867b445 and e7b75fb (side files kept
+    through keep_traj_fnames and any stale file are left behind, `rmdir` then fails);
+    `repaired`: the current code (side files removed, then accepted/ emptied). -/
 inductive Variant where
   | asIs | repaired
 deriving DecidableEq, Repr
@@ -377,13 +378,20 @@ def sideFiles (pd : Nat) (adr keep : List String) : List DFile :=
 def removeSides (pd : Nat) (adr keep : List String) (d : List DFile) : List DFile :=
   d.filter (fun f => f ∉ sideFiles pd adr keep)
 
-/-- what the delete_old_all branch removes before the two `rmdir`s -/
-def cleanDir (c : DelCfg) (pd : Nat) (adr : List String) (d : List DFile) : List DFile :=
-  removeTxts pd (match c.variant with | .asIs => d | .repaired => removeSides pd adr c.keep d)
-
 def isAccOf (pd : Nat) : DFile → Bool
   | .acc p _ => p == pd
   | _ => false
+
+/-- `for leftover in os.listdir(acc_dir): os.remove(...)` (commit e7b75fb): every remaining entry
+    of load/pd/accepted, whatever put it there -/
+def removeLeftovers (pd : Nat) (d : List DFile) : List DFile := d.filter (fun f => !isAccOf pd f)
+
+/-- what the delete_old_all branch removes before the two `rmdir`s: (repaired) the kept side
+    files, the three txt files, then whatever is left in accepted/; (asIs) only the txt files -/
+def cleanDir (c : DelCfg) (pd : Nat) (adr : List String) (d : List DFile) : List DFile :=
+  match c.variant with
+  | .asIs => removeTxts pd d
+  | .repaired => removeLeftovers pd (removeTxts pd (removeSides pd adr c.keep d))
 
 /-- `os.rmdir(load/pd/accepted)`, `os.rmdir(load/pd)` -/
 def rmdirs (pd : Nat) (disk : List DFile) (dirs : List DDir) : List DDir × Option Err :=
@@ -467,11 +475,17 @@ def finish (s : St) : St × Option Err :=
 inductive Op where
   | replace (pnOld : Nat) (files kept : List String)
   | finish
+  | stale (pn : Nat) (name : String)   -- environment: a file appears in load/pn/accepted (interrupted store)
 deriving Repr
+
+/-- a stale file can only lie in a directory that exists -/
+def addStale (s : St) (pn : Nat) (name : String) : St :=
+  if DDir.accepted pn ∈ s.dirs then { s with disk := .acc pn name :: s.disk } else s
 
 def step (s : St) : Op → St × Option Err
   | .replace p f k => replace s p f k
   | .finish => finish s
+  | .stale p nm => (addStale s p nm, none)
 
 /-- a history; the process dies at the first exception (the state then is what is on disk) -/
 def run : St → List Op → St × Option Err
